@@ -1307,7 +1307,7 @@ func ruleDeadlineKind(c *Ctx, p *core.Program, r *doRoles, rule string) {
 		c.R.Ok(rule, "package ch", cfg, "", sprintf("%d deadline calls, each on its own direction; no SetDeadline", n))
 	}
 	c.R.Count("deadline calls in package ch", n)
-	c.R.Floor(rule, cfg, n, 6)
+	c.R.Floor(rule, cfg, n, 3)
 }
 
 // ruleFlushOwner (C04 / C14): only the client decides when staged output goes to the connection.
